@@ -409,7 +409,11 @@ class Check:
               "coverage": self.cov, "assumptions": self.assumptions,
               "wall_s": round(time.time() - self.t0, 2), "violations": self.n_viol}
         self.cov["known_findings_seen"] = self.known_seen
-        with open(os.path.join(VERIF, "evidence", f"{self.pid}.json"), "w") as f:
+        evdir = os.path.join(VERIF, "evidence")
+        if os.path.realpath(REPO) != "/repo":   # run against a scratch worktree (seeded change): keep /verif/evidence for /repo
+            evdir = os.path.join(VERIF, ".cache", "scratch-evidence")
+            os.makedirs(evdir, exist_ok=True)
+        with open(os.path.join(evdir, f"{self.pid}.json"), "w") as f:
             json.dump(ev, f, indent=1, default=str)
         self.log(f"done: violations={self.n_viol} obligations={self.cov['obligations']} "
                  f"discharged={self.cov['discharged']} evaluations={self.cov['evaluations']}")
